@@ -503,6 +503,20 @@ func (e *CEnv) unary(x *CExpr) CVal {
 		}
 		return e.goVal(e.fx.load(e.st, p), p.Elem)
 	case "&":
+		// &x.f of a non-object field: the abstract identity fld|T|f(x) (see makeInterface)
+		if a := x.Args[0]; a.Op == "field" {
+			if base := e.Eval(a.Args[0]); base.V != nil {
+				if bp, ok := base.V.(PtrV); ok && bp.Kind == PObj {
+					if stt, ok := under(bp.Elem).(*types.Struct); ok {
+						for i := 0; i < stt.NumFields(); i++ {
+							if stt.Field(i).Name() == a.Name && !isObjT(stt.Field(i).Type()) {
+								return CVal{V: c.App("fld|"+typeKey(bp.Elem)+"|"+a.Name, RefSort, bp.Ref), G: &CType{Kind: "name", Name: "Ref"}}
+							}
+						}
+					}
+				}
+			}
+		}
 		// &x.f : address of an object-typed field
 		v := e.Eval(x.Args[0])
 		if p, ok := v.V.(PtrV); ok && p.Kind == PObj {
